@@ -210,11 +210,61 @@ def collector_eval(ctx, r, fn):
         r.inst("get_keys_inner (evaluated)", "%d evaluations (9 values of every kind x signature empty / already knowing some names): every variable, component and count that occurs is reported" % n)
 
 
+def push_eval(ctx, r, rid="R2"):
+    """InterpolationKeys::push_var / push_comp evaluated: a sequence of reports ends with every distinct (variable, formatter) pair and
+    every component in the signature - nothing is merged away (each formatter a variable is used with decides the variable's bounds
+    *and* which ICU data the build helper requests)"""
+    from rules import absint
+    from rules.absint import AEval, C, CF, L
+    from rules.fkeval import K
+    ast = ctx.ast
+    pv = ast.fn(PL, "push_var", impl_self="InterpolationKeys")
+    pc = ast.fn(PL, "push_comp", impl_self="InterpolationKeys")
+    if pv is None or pc is None:
+        r.missing("InterpolationKeys::push_var / push_comp")
+        return
+    absint.set_program(ast)
+    fms = [C("None"), C("Number", C("Auto")), C("Currency", C("Short"), C("USD")), C("Number", C("Never")), C("Date", C("Long")), C("Time", C("Long")), C("DateTime", C("Long"), C("Short")), C("List", C("And"), C("Wide"))]
+    seq = [("var_x", fms[1]), ("var_x", fms[2]), ("var_x", fms[1]), ("var_y", fms[0]), ("var_x", fms[3]), ("var_d", fms[4]), ("var_d", fms[5]), ("var_d", fms[6]), ("var_y", fms[7])]
+    this = CF("InterpolationKeys", components=L(), variables=L())
+    try:
+        for kname, f in seq:
+            ev = AEval(funcs={})
+            ev.default_value = CF("VarInfo", formatters=L(), range_count=C("None"))
+            g = ev.run_fn(pv, [this, K(kname), f])
+            if isinstance(g, str):
+                raise absint.Unknown(g)
+            this = ev.last_env.get("self", this)
+        for cname in ("comp_b", "comp_i", "comp_b"):
+            ev = AEval(funcs={})
+            g = ev.run_fn(pc, [this, K(cname)])
+            if isinstance(g, str):
+                raise absint.Unknown(g)
+            this = ev.last_env.get("self", this)
+    except absint.Unknown as u:
+        r.viol("%s:push_var#undecided" % rid, "cannot be interpreted on the current code (%s): not decided (fail closed)" % str(u)[:200], file=PL, line=pv.line)
+        return
+    f_ = absint.fields_of(this)
+    got = {absint.fields_of(kv[1][0])["name"][1]: set(absint.fields_of(kv[1][1])["formatters"][1]) for kv in f_["variables"][1]} if f_["variables"][0] == "list" else None
+    want = {}
+    for kname, f in seq:
+        want.setdefault(kname, set()).add(f)
+    comps = sorted(absint.fields_of(x)["name"][1] for x in f_["components"][1]) if f_["components"][0] == "list" else None
+    if got != want:
+        lost = {k: [absint.fmt(x) for x in (want[k] - (got or {}).get(k, set()))] for k in want if want[k] - (got or {}).get(k, set())}
+        r.viol("%s:push_var#every-formatter" % rid, "after reporting x as number, currency, number(never), d as date / time / datetime, y plain and as list, the signature lacks %s" % lost, file=PL, line=pv.line)
+    elif comps != ["comp_b", "comp_i"]:
+        r.viol("%s:push_comp" % rid, "after reporting <b>, <i>, <b> the components are %s" % comps, file=PL, line=pc.line)
+    else:
+        r.inst("InterpolationKeys::push_var / push_comp (evaluated)", "9 variable reports (8 formatters incl. two of one family and two families taking the same kind of input) + 3 component reports: every distinct pair is kept")
+
+
 def r2_union(ctx, prog):
     r = Rule("C08.R2", "collection is a monotone union into the key's single argument set",
              "`the union over all locales`: arguments collected for one locale must never be removed or replaced when another "
              "locale is merged", floor=6)
     ast = ctx.ast
+    push_eval(ctx, r, "R2")
     fn = ast.fn(PV, "merge", impl_self="ParsedValue")
     if fn is None:
         r.missing("ParsedValue::merge")
